@@ -14,6 +14,7 @@
 #include <stdio.h>
 #include <stdlib.h>
 #include <string.h>
+#include <ctype.h>
 /* ---- environment: the attribute list and the recording contract stub of the attribute reader ---- */
 #define NA 3
 static STEPattribute *g_attr[NA]; static int g_n; static int g_kind[NA];              /* AttrType of each attribute */
@@ -37,6 +38,12 @@ void SDAI_Application_instance::ClearError(int) { _error.ClearErrorMsg(); }
 void ReadTokenSeparator(istream &in, std::string *) { in >> ws; }
 Severity CheckRemainingInput(istream &, ErrorDescriptor *e, const char *, const char *) { g_cri_calls++; e->GreaterSeverity(SEVERITY_WARNING); return e->severity(); }
 #include "appinst_extract.inc"
+/* ---- writer side ---- */
+static int g_writes; static STEPattribute *g_write_attr[NA]; static const char *g_write_sch[NA];
+void STEPattribute::STEPwrite(ostream &out, const char *sch) { if (g_writes < NA) { g_write_attr[g_writes] = this; g_write_sch[g_writes] = sch; } g_writes++; out << "@"; }
+const char *SDAI_Application_instance::EntityName(const char *) const { return "ent"; }
+const char *StrToUpper(const char *w, std::string &s) { s.clear(); for (int i = 0; i < 31 && w[i]; i++) s += (char)toupper(w[i]); return s.c_str(); }
+#include "appinst_write_extract.inc"
 /* message text is outside these obligations: the message builders of errordesc.cc are no-ops here (the severity lattice,
  * GreaterSeverity / severity / ClearErrorMsg, is the real inline code of errordesc.h) */
 ErrorDescriptor::ErrorDescriptor(Severity s, DebugLevel) : _severity(s) {}
@@ -95,4 +102,40 @@ extern "C" void h_inst_STEPread()
         for (int i = 0; i < NA; i++) if (i < in_n && kinds[i] == AttrType_Explicit) { if (sevs[i] < worst) worst = (Severity)sevs[i]; jj++; }
         __CPROVER_assert(s == worst, "C03 with the right number of parameters the instance's severity is the worst severity any of its attributes reported (nothing is lost, nothing invented)");
     }
+}
+
+/* C01: an instance is written as #id=KEYWORD(v1,v2,...); with one value per attribute that is not a redeclaration, in attribute
+ * order, separated by single commas, nothing else */
+extern "C" void h_inst_STEPwrite()
+{
+    IN(int, in_n); IN(int, in_k0); IN(int, in_k1); IN(int, in_k2); IN(int, in_id);
+    __CPROVER_assume(in_n >= 0 && in_n <= NA && in_id >= 1 && in_id <= 1000000);
+    int kinds[NA] = { in_k0, in_k1, in_k2 };
+    __CPROVER_assume(in_k0 == AttrType_Explicit);                 /* a redeclaration never comes first: it follows the attribute it redeclares */
+    for (int i = 0; i < NA; i++) {
+        __CPROVER_assume(kinds[i] == AttrType_Explicit || kinds[i] == AttrType_Redefining);
+        g_attr[i] = (STEPattribute *)malloc(sizeof(STEPattribute)); g_attr[i]->aDesc = (AttrDescriptor *)malloc(sizeof(AttrDescriptor)); g_kind[i] = kinds[i];
+    }
+    g_n = in_n; g_writes = 0;
+    SDAI_Application_instance *se = (SDAI_Application_instance *)malloc(sizeof(SDAI_Application_instance));
+    new (&se->p21Comment) std::string(); se->STEPfile_id = in_id;
+    ostream out; out._m_written = 0;
+    se->SDAI_Application_instance::STEPwrite(out, "sch", 1);
+    int plain = 0; for (int i = 0; i < NA; i++) if (i < in_n && kinds[i] == AttrType_Explicit) plain++;
+    /* transcript: "#" id "=" "ENT" "(" { ["," ] "@" } ");\n" */
+    unsigned long expect = 5 + (unsigned long)plain + (plain > 0 ? (unsigned long)plain - 1 : 0) + 1;
+    __CPROVER_assert(out._m_written == expect, "C01 an instance is written as its id, keyword, one value per non-redeclared attribute, single commas between them, and the closing );");
+    __CPROVER_assert(out._m_logc[0] == 'S' && !strcmp(out._m_logt[0], "#") && out._m_logc[2] == 'S' && !strcmp(out._m_logt[2], "=") && out._m_logc[3] == 'S' && !strcmp(out._m_logt[3], "ENT") && out._m_logc[4] == 'S' && !strcmp(out._m_logt[4], "("), "C01 the instance starts with #id=KEYWORD( with the keyword in upper case");
+    int pos = 5;
+    for (int j = 0; j < NA; j++) if (j < plain) {
+        if (j > 0) { __CPROVER_assert(out._m_logc[pos] == 'S' && out._m_logt[pos][0] == ',' && out._m_logt[pos][1] == 0, "C01 values are separated by exactly one comma"); pos++; }
+        __CPROVER_assert(out._m_logc[pos] == 'S' && out._m_logt[pos][0] == '@' && out._m_logt[pos][1] == 0, "C01 each value is written in its place"); pos++;
+    }
+    __CPROVER_assert(out._m_logc[pos] == 'S' && out._m_logt[pos][0] == ')' && out._m_logt[pos][1] == ';', "C01 the instance ends with );");
+    __CPROVER_assert(g_writes == plain, "C01 every attribute that is not a redeclaration is written exactly once");
+    int j = 0;
+    for (int i = 0; i < NA; i++) if (i < in_n && kinds[i] == AttrType_Explicit && j < NA) { __CPROVER_assert(g_write_attr[j] == g_attr[i] && g_write_sch[j] != 0, "C01 values are written in attribute order, with the current schema"); j++; }
+    ostream out2; out2._m_written = 0;
+    se->SDAI_Application_instance::STEPwrite_reference(out2);
+    __CPROVER_assert(out2._m_written == 2 && out2._m_logc[0] == 'S' && !strcmp(out2._m_logt[0], "#"), "C01/C09 a reference to an instance is written as # followed by its id");
 }
